@@ -361,7 +361,7 @@ def pred_c04(prog, ob):
 PREDS = {"C04": pred_c04, "C03": pred_c03, "C05": pred_c05, "C06": pred_c06, "C09": pred_c09, "C11": pred_c11}
 
 
-def kernel_check(ctx, pid, runs, preds, rule, extra_assumptions=(), corpus=()):
+def kernel_check(ctx, pid, runs, preds, rule, extra_assumptions=(), corpus=(), extra_checks=()):
     """shared body of the kernel property checks: build Props, run correspondence batches, evaluate the
     implementation-only statements on every run; a failing statement is a violation (known findings excepted)"""
     ctx.rule = rule
@@ -372,6 +372,7 @@ def kernel_check(ctx, pid, runs, preds, rule, extra_assumptions=(), corpus=()):
         "one outline / family nor as plain and conditional auxiliary of the same frame (known findings)",
     ] + list(extra_assumptions)
     ctx.coq_build("%s/Props.v" % pid)
+    extra_found = [f for f in [chk(ctx) for chk in extra_checks] if f]
     allm = []
     for i, (p, ca) in enumerate(corpus):
         ob = kernel.run_impl(p, ca, ctx.work, "corpus%d" % i, maxticks=ctx.n(20, 36))
@@ -421,6 +422,8 @@ def kernel_check(ctx, pid, runs, preds, rule, extra_assumptions=(), corpus=()):
             ctx.violation(r, True, k)
 
     def search():
+        if extra_found:
+            return extra_found[0]
         if unknown:
             k, r = unknown[0]
             return dict(r, key=k)
